@@ -22,7 +22,7 @@ STUBS = ["log_likelihood_alleles_cached -> ln L_i(sorted alleles), one positive 
 ASSUMES = ["allele frequencies symbolic > 0 summing to one; per-(sample,parent) error rates symbolic in (0,1); lambda symbolic in (0,1) for tetraploid parents with tau = 2 in the lambda configurations",
            "target joint: prod_i L_i(g_i) * oracle trio pmf(g_i | parents) (the gamete-pair oracle C17 proves equal to trio_log_pmf)"]
 BOUNDS = {"quick": "pedigrees: diploid founder, diploid duo, diploid trio (parents first, progeny first, sample 0 as second parent), diploid duo with sample 0 as the only (second) parent, tetraploid trio (2 alleles), 2x*4x->3x trio (unbalanced), selfed diploid; all joint states over 2 alleles, every target individual, allele copy and candidate allele; swap move on the trios",
-          "thorough": "adds diploid trio with 3 alleles, tetraploid trio with lambda, half-sibs (5 individuals), three generations, clone tau=(0,2), 4x*2x->3x, unknown-parent duo with unbalanced tau"}
+          "thorough": "adds diploid trio with 3 alleles, tetraploid trio with lambda, half-sibs (5 individuals), clone tau=(0,2), 4x*2x->3x, unknown-parent duo with unbalanced tau"}
 OUTSIDE = "larger pedigrees / ploidies; the read model (C04); float rounding; ergodicity (class-wiring group: PedigreeCallingMCMC.fit -> greedy_caller / mcmc_sampler receive the object's arrays, log frequencies, annealing, step type)"
 TASKS_PER_CHILD = 4
 
@@ -50,7 +50,8 @@ PEDS = {
     "duo3unb": dict(ploidy=[4, 3], parents=[[-1, -1], [0, -1]], tau=[[2, 2], [2, 1]], nA=2),
 }
 QUICK = ["founder2", "founder4", "duo2", "trio2", "trio4", "trio243", "self2", "trio2cf", "trio2q0", "duo2q0"]
-THOROUGH = QUICK + ["sibs4cf", "trio2a3", "trio4lam", "halfsibs", "threegen", "clone2", "trio423", "duo3unb"]
+# (the five-member three-generation pedigree was a quarter of the tier's cost and adds no new blanket shape over half-sibs + trios: sized out)
+THOROUGH = QUICK + ["sibs4cf", "trio2a3", "trio4lam", "halfsibs", "clone2", "trio423", "duo3unb"]
 CHUNK = 9
 
 
